@@ -33,7 +33,11 @@ RULE = ('case = header (Machine or HierarchicalMachine, every third case their G
 ASSUMPTIONS = ['callbacks neither raise nor call back into the machine (C04/C05)',
                'hierarchical construction (Model/HBuild.v, dispatch kind 17): auto_transitions off, names/dicts/embedded '
                'machines (no NestedState objects, no Enum states, no parallel shorthand), initial of an embedded machine '
-               'a top-level state; event transitions are compared per source (the library groups them by source)',
+               'a top-level state; event transitions are compared per source (the library groups them by source); every '
+               'third builder case uses a state class with its own separator; source=* / dest== declared inside a nested '
+               'definition is handed to the library as shorthand and to the model unfolded by the generator; a nested '
+               'state referenced by its State OBJECT in add_transition is registered by the library under its bare local '
+               'name - the builder model is given that (c13_h.NESTED_OBJ_IS_BARE_NAME; reported finding)',
                'State objects passed as references are the registered objects (identity is not modelled)',
                'embedded-machine check: event names include to_-prefixed names that are no automatic transitions, the '
                'embedded machine has auto_transitions on or off and one or two levels (also both: D33, fixed); user '
